@@ -75,4 +75,5 @@ def main(tier):
     chk.run("R-LEAFCHECK", SY.leafcheck, cx.repo, floor=2)
     chk.run("R-INTDIGITS", P.intdigits, cx.repo, floor=1)
     chk.run("R-BOUNDMEMO", BR.boundmemo, cx.repo, floor=6)
+    chk.run("R-CONSTREFKIND", RR.constrefkind, cx.repo, floor=2)
     return chk.finish()
